@@ -721,6 +721,15 @@ func c13(e *env) {
 	} {
 		runCutCase(e, w, dc)
 	}
+	// (B2) Handler.doRequest against its model (handlers/BatchedRetry.v): one single-key call,
+	// each of its (at most two) submissions cut before or after the backend applied it
+	for _, kd := range []string{"set", "add", "replace", "append", "prepend", "delete", "touch"} {
+		for _, present := range []bool{true, false} {
+			for _, cuts := range [][]string{{"", ""}, {"before", ""}, {"after", ""}, {"before", "before"}, {"before", "after"}, {"after", "before"}, {"after", "after"}} {
+				runDoCase(e, w, kd, present, cuts)
+			}
+		}
+	}
 	kinds = append(kinds, "status")
 	for i := 0; i < ncut; i++ {
 		c := cutCase{Pool: 1 + r.Intn(3), CutAt: r.Intn(12), CutKind: kinds[r.Intn(len(kinds))], Status: []uint16{0x82, 0x85, 0x86, 0x84}[r.Intn(4)]}
@@ -769,10 +778,59 @@ func c13(e *env) {
 }
 
 func finishC13(w *rig.Writer) {
-	w.Res.Rule = "(A) the get retry bookkeeping (tracker map -> re-submitted request) on random multi-key gets with a served prefix, compared with the model and with 'pending = requested - served'; (B) 1..4 concurrent callers with private keys through a pool of 1..3 connections whose backend connection is cut at a chosen request (before / after applying / after the reply / inside the reply / while idle), optionally again a few requests later: every call must return exactly one outcome in time, a successful get must carry exactly the requested keys with the caller's own values, and afterwards the pool must serve normally; non-trivial = part of the get was served before the cut / a cut with >= 2 callers"
+	w.Res.Rule = "(A) the get retry bookkeeping (tracker map -> re-submitted request) on random multi-key gets with a served prefix, compared with the model and with 'pending = requested - served'; (B) 1..4 concurrent callers with private keys through a pool of 1..3 connections whose backend connection is cut at a chosen request (before / after applying / after the reply / inside the reply / while idle), optionally again a few requests later: every call must return exactly one outcome in time, a successful get must carry exactly the requested keys with the caller's own values, and afterwards the pool must serve normally; (B2) Handler.doRequest: each of set/add/replace/append/prepend/delete/touch on a present or absent key through a pool of one connection, each of its two possible submissions cut before or after the backend applied it (7 plans): result and backend contents compared with handlers/BatchedRetry.v, oracle = applied at most once and an acknowledged call was applied; non-trivial = part of the get was served before the cut / a cut with >= 2 callers"
 	if err := w.Finish([]string{"base.Bytes", "base.Harness", "gen.Consts_gen", "spec.MapSpec", "orca.Types", "handlers.Batched", "checks.Check06"}, "case06", "check06"); err != nil {
 		rig.Die("%v", err)
 	}
+}
+
+// runDoCase: a pool of one connection (doRequest tries twice), a backend holding key "do-k" or not,
+// one call whose i-th submission is cut as cuts[i] says; result and backend contents go to the model.
+func runDoCase(e *env, w *rig.Writer, kind string, present bool, cuts []string) {
+	fb := fakemc.New()
+	fb.SetNow(cNow)
+	sock := newSock(e)
+	l, _ := fb.ListenUnix(sock)
+	defer func() { l.Close(); fb.CloseAll() }()
+	opts := batched.Opts{BatchSize: 4, BatchDelayMicros: 200}
+	h := batched.NewHandler(sock, opts)
+	key := "do-k"
+	if present {
+		if r := callHandler(h, hCall{Kind: "set", Key: key, Data: []byte("OLD"), Flags: 5}); r != "HDone" {
+			w.Fail(rig.GoFailure{Kind: "broken-correspondence", What: "doRequest case: the fault-free set-up call failed", Input: map[string]interface{}{"kind": kind}, Detail: r})
+			return
+		}
+	}
+	setup := stack.DumpGallina(fb)
+	base := fb.Seq()
+	var cg []string
+	for i, c := range cuts {
+		switch c {
+		case "before":
+			fb.SetFault(base+i, fakemc.Fault{Kind: fakemc.FCloseBefore})
+			cg = append(cg, "(Some (0%nat, 0%nat))")
+		case "after":
+			fb.SetFault(base+i, fakemc.Fault{Kind: fakemc.FCloseAfterApply})
+			cg = append(cg, "(Some (0%nat, 1%nat))")
+		default:
+			cg = append(cg, "None")
+		}
+	}
+	call := hCall{Kind: kind, Key: key, Data: []byte("+x"), Flags: 9, TTL: 100}
+	in := map[string]interface{}{"kind": "doRequest", "call": call, "key_present": present, "cuts": cuts}
+	done := make(chan string, 1)
+	go func() { done <- callHandler(h, call) }()
+	var res string
+	select {
+	case res = <-done:
+	case <-time.After(20 * time.Second):
+		w.Fail(rig.GoFailure{Kind: "counterexample", What: "a single call through the pool got no outcome within 20 s after its connection was cut", Input: in})
+		return
+	}
+	time.Sleep(2 * time.Millisecond)
+	w.Count("doRequest:" + kind)
+	w.Add(rig.Case{Desc: in, Coq: gal.App("K6Do", gal.N(uint64(cNow)), gal.List([]string{gal.Bytes([]byte(key))}), setup, "2%nat", gal.List(cg), call.hreq(), res, stack.DumpGallina(fb)),
+		Nontrivial: cuts[0] != ""})
 }
 
 // runCutCase: Go-side oracles only (timing-dependent: per-caller outcomes, ownership, completeness)
